@@ -51,10 +51,13 @@ func HashToGroup(input, dst []byte) *Element {
 	uniform := expandXMD(input, dst, expLength)
 	u0 := field.New().HashToFieldElement([secLength]byte(uniform[:secLength]))
 	u1 := field.New().HashToFieldElement([secLength]byte(uniform[secLength : 2*secLength]))
-	q0 := SSWU(u0)
-	q1 := SSWU(u1)
+	// Map both points to secp256k1 and add them there with the complete formula, as RFC 9380 prescribes: the affine
+	// chord formula on the isogenous curve is not defined when the two points share their x coordinate (Q0 = +-Q1),
+	// in which case it yielded an element that is not on the curve.
+	q0 := IsogenySecp256k13iso(SSWU(u0))
+	q1 := IsogenySecp256k13iso(SSWU(u1))
 
-	return IsogenySecp256k13iso(q0.addAffine3Iso2(q1))
+	return q0.Add(q1)
 }
 
 // EncodeToGroup returns a non-uniform mapping of the arbitrary input to an Element in the Group.
